@@ -22,8 +22,25 @@ def plan(tier):
         PG.reusable_full_queue(), PG.reusable_resize(2, 3, 0.05), PG.reusable_resize(2, 1, None),
         PG.reusable_replace(None, False), PG.two_submitters(2, 0.05), PG.cancel_prog(1),
     ]
-    b = 1
-    return [(p, b, dict(kinds=("P", "T", "K"))) for p in progs]
+    pl = [(p, 1, dict(kinds=("P", "T", "K"))) for p in progs]
+    # other scheduling policies (see DESIGN 11.2): a delayed user thread, an eager manager
+    pl += [(PG.two_submitters(2, 0.05), 1, dict(kinds=("P", "T"), starve="parent:user")),
+           (PG.submit_vs_shutdown(1, True), 1, dict(kinds=("P", "T", "K"), starve="parent:user")),
+           (PG.basic(2, 0.05), 1, dict(kinds=("T", "K"), starve="eager:parent:manager")),
+           (PG.idle_then_submit(2, 0.05), 1, dict(kinds=("T", "K"), starve="eager:parent:manager")),
+           (PG.reusable_resize(2, 3, None), 1, dict(kinds=("K",), starve="eager:parent:manager"))]
+    if tier == "thorough":
+        small = [PG.one_task(1, None, "wait"), PG.one_task(1, 0.05, "nowait"),
+                 PG.one_task(1, 0.05, "del"), PG.one_task(2, None, "exit"),
+                 PG.failing("bad_arg"), PG.failing("unpicklable_result"), PG.cancel_prog(1),
+                 PG.warm_then(1, 0.05, "await")]
+        for p in small:
+            pl.append((p, 2, dict(kinds=("P", "K"))))
+            pl.append((p, 2, dict(kinds=("T", "K"))))
+            pl.append((p, 2, dict(kinds=("P", "T"))))
+        pl += [(PG.submit_vs_shutdown(1, True), 2, dict(kinds=("P",), starve="parent:user")),
+               (PG.two_submitters(2, None), 2, dict(kinds=("P",)))]
+    return pl
 
 
 def main(tier, replay=None):
